@@ -177,6 +177,9 @@ def snapshot(roots, max_depth=8):
             for k, y in vars(x).items():
                 if k in ('logger', '_FrozenClass__isfrozen', 'evals', 'solves', 'trace', 'mass'):
                     continue
+                if k in ('_Step__prev', '_Step__next', '_Sweeper__level', 'controller', 'fine', 'coarse', 'fine_prob', 'coarse_prob', '_Step__transfer_dict'):
+                    out[f'{loc}.{_demangle(k)}'] = ('obj', id(y))
+                    continue
                 walk(f'{loc}.{_demangle(k)}', y, depth + 1)
             return
         out[loc] = ('obj', id(x))
